@@ -475,11 +475,15 @@ where
             )));
         };
 
-        rrset.push_data(data);
+        rrset.push_data(data.clone());
 
         if let Some(existing_rrset) = tree_node.get_rrset(rtype).await? {
             for existing_data in existing_rrset.data() {
-                rrset.push_data(existing_data.clone());
+                // An RRset is a set: if the record is there already, it is
+                // not added a second time.
+                if *existing_data != data {
+                    rrset.push_data(existing_data.clone());
+                }
             }
         }
 
